@@ -221,6 +221,18 @@ def modelText (fmt : String) (ts : List T) : Txt :=
   | "nexus1" => (match ts with | t :: _ => treeNexus c01Go t | [] => [])
   | _ => Px.render goNum ts
 
+/-- the model declines (`unsupported`) only on constructs it is known not to follow, FOUND HERE in the
+    document itself: a Nexus DATA block, a lone CR in a Nexus text, a PhyloXML phylogeny with several root
+    clades.  A decline on any other document is a broken correspondence (TIE). -/
+def knownUnsupported (doc : Doc) : Bool :=
+  match doc with
+  | .nexus s =>
+    let toks := Nex.scan s
+    toks.contains .loneCR || toks.any fun t => match t with | .kw .data _ => true | _ => false
+  | .phyloxml (some (.elem _ _ kids)) =>
+    kids.any fun k => k.tag? == some "phylogeny" && (Px.childrenTagged "clade" k.kids).length ≥ 2
+  | _ => false
+
 /-- compare the model's readers with the implementation's on one document; returns extra tags or a verdict -/
 def tieReaders (doc : Doc) (mrecs : List Rec) (first : Option Out) (tags : List String) : Verdict :=
   match readMulti env doc, readFirst env doc with
@@ -231,15 +243,7 @@ def tieReaders (doc : Doc) (mrecs : List Rec) (first : Option Out) (tags : List 
                   else ⟨.tie, tags, "model first-tree reader: " ++ showOut mf⟩
       | none => ⟨.pass, tagIf (recsExactEq mm mrecs) "exact-eq" ++ tags, ""⟩
   | _, _ =>
-    -- the model declines only on constructs it is known not to follow: a Nexus DATA block, a lone CR in a
-    -- Nexus text, a PhyloXML phylogeny with several root clades; anything else is a broken correspondence
-    let known := match doc with
-      | .nexus s =>
-        let toks := Nex.scan s
-        toks.contains .loneCR || toks.any fun t => match t with | .kw .data _ => true | _ => false
-      | .phyloxml _ => true
-      | _ => false
-    if known then ⟨.pass, "model-unsupported" :: tags, ""⟩
+    if knownUnsupported doc then ⟨.pass, "model-unsupported" :: tags, ""⟩
     else ⟨.tie, "model-unsupported" :: tags, "the model declines this document although it holds none of the constructs it is known not to follow"⟩
 
 /-- the instance of `Px.encodeAlt` the harness writes (flag `forms-spec`): the style is a function of the
@@ -292,9 +296,10 @@ def handle (op : String) (f : List String) : Verdict :=
       if firstS != "skip" && first.isNone && !firstS.startsWith "panic" then bad "C13.chain first" else
       let isNexus := fmt == "nexus" || fmt == "nexustr" || fmt == "nexus1"
       let wf := WF13list ts
-      let hyp := wf && (!isNexus || sameTaxa ts)
+      -- tree LISTS with differing tip sets are inside the quantifier (Nexus too since fix 6a194b0)
+      let hyp := wf
       -- open finding F60: a repeated node name under a translate table
-      let f60 := isF60 (fmt == "nexustr") ts mrecs
+      let f60 := isF60Lists (fmt == "nexustr") ts mrecs
       let lawPW := ts.all fun t => match c01Go.parse (c01Go.write t) with
         | some u => sameKept u t
         | none => false
@@ -321,7 +326,8 @@ def handle (op : String) (f : List String) : Verdict :=
         let repaired := f60 && (match Nex.parseTips c01Go (writeNexusTips c01Go true ((List.range ts.length).zip ts)) with
           | .ok d => recsAre ts (recsOfTrees (d.map (·.2)) 0) 0
           | _ => false)
-        ⟨.oracle, tagIf f60 "f60-region" ++ tagIf repaired "f60-tipsonly-variant-ok" ++ tags, (if f60 then "class=NexusTranslateDuplicateNodeNames " else "") ++
+        ⟨.oracle, tagIf f60 "f60-region" ++ tagIf repaired "f60-tipsonly-variant-ok" ++ tags,
+          (if f60 then "class=NexusTranslateDuplicateNodeNames " else "") ++
           "conversion chain: the trees read back differ from the trees written (shape/names/lengths/supports), or a tree is missing"⟩
       else if isNexus && fmt != "nexus1" && wres == "ok" && ts.all (fun t => t.tipNames.all labelOK) && !(taxaBlockOK ts text) then
         ⟨.oracle, tags, "Nexus taxa block: TAXLABELS / NTAX are not the tips of all the trees"⟩
@@ -330,9 +336,9 @@ def handle (op : String) (f : List String) : Verdict :=
       else if wres != "ok" then ⟨.pass, ("writer-" ++ wres) :: tags, ""⟩
       -- the quantifier of the oracle (WF13 …) must lie inside the hypotheses of the theorem for this format
       -- (no lemma `WF13 → hypotheses` is proved: it is checked on every case instead); F60's region excepted
-      else if hyp && !(tags.contains "f60-region") && !(ts.any fun t => !innerNamesDistinct t) &&
-          ((fmt == "nexus" && !tags.contains "hyp-nexus-roundtrip-plain") ||
-           (fmt == "nexustr" && !tags.contains "hyp-nexus-roundtrip-translate") ||
+      else if hyp &&
+          ((fmt == "nexus" && sameTaxa ts && !tags.contains "hyp-nexus-roundtrip-plain") ||
+           (fmt == "nexustr" && sameTaxa ts && !(ts.any fun t => !innerNamesDistinct t) && !tags.contains "hyp-nexus-roundtrip-translate") ||
            (fmt == "phyloxml" && !tags.contains "hyp-phyloxml-chain-go")) then
         ⟨.tie, tags, "a case inside the oracle's domain is not an instance of the round-trip theorem of its format (hypotheses not satisfied)"⟩
       else
@@ -349,7 +355,8 @@ def handle (op : String) (f : List String) : Verdict :=
              -- the model's writer followed by the model's reader
              (match readMulti env dm with
               | some mm => if recsKeptEq mm mrecs then ⟨.pass, tg, ""⟩ else ⟨.tie, tg, "model writer+reader records: " ++ showRecs mm⟩
-              | none => ⟨.pass, "model-unsupported-w" :: tg, ""⟩)
+              | none => if knownUnsupported dm then ⟨.pass, "model-unsupported-w" :: tg, ""⟩
+                        else ⟨.tie, "model-unsupported-w" :: tg, "the model declines its own writer's document"⟩)
            | v => v)
         | _, _ => bad "C13.chain fmt"
     | _, _, _, _ => bad "C13.chain fields"
@@ -503,19 +510,19 @@ def handle (op : String) (f : List String) : Verdict :=
       | some doc =>
       let nexusInvolved := outfmt == "nexus" || infmt == "nexus" || infmt == "nexustr"
       let wf := WF13list ts
-      let hyp := wf && !broken && (!nexusInvolved || sameTaxa ts)
+      let hyp := wf && !broken
       let dupNames := ts.any fun t => !innerNamesDistinct t
       -- open finding F60, as narrow as the finding: either the WRITER was asked for a translate table (output
       -- nexus with --translate: the command succeeds and its document is read back as the single error
       -- record), or the READER met a translate table over a repeated inner name (input written with a
       -- table: the command fails with tree.Rename's duplicate-name message).  Any other failure — a crash,
       -- another message, --translate with another output format — does not carry the class.
-      let f60 := ts.all tipsOK && sameTaxa ts && ts.all nonTipNamesNotNumeral && dupNames &&
-        ((outfmt == "nexus" && translate && exit == "ok" && isF60 true ts mrecs) ||
+      let f60 := ts.all tipsOK && ts.all nonTipNamesNotNumeral && dupNames &&
+        ((outfmt == "nexus" && translate && exit == "ok" && isF60Lists true ts mrecs) ||
          (infmt == "nexustr" && exit == "fail" && renameDupMsg errS))
       let tags := ["reformat", "in-" ++ infmt, "out-" ++ outfmt, "o-" ++ omode] ++ tagIf translate "translate" ++
         tagIf broken "broken-input" ++ tagIf wf "wf13" ++ tagIf hyp "hyp" ++ tagIf (ts.length ≥ 2) "nontrivial" ++
-        tagIf f60 "f60-region" ++ treeTags ts
+        tagIf f60 "f60-region" ++ tagIf (nexusInvolved && !sameTaxa ts) "differing-taxa" ++ treeTags ts
       let cls := if f60 then "class=NexusTranslateDuplicateNodeNames " else ""
       if outS.startsWith "STDOUT-NOT-EMPTY:" then ⟨.oracle, tags, "reformat -o: output also went to stdout"⟩
       else if exit == "timeout" || mrecsS.startsWith "panic" then ⟨.oracle, tags, "reformat: timeout / panic"⟩
@@ -528,7 +535,8 @@ def handle (op : String) (f : List String) : Verdict :=
       else
         -- the glue as a function of the flags: read everything, stop at the first error record
         match readMulti env doc with
-        | none => ⟨.pass, "model-unsupported" :: tags, ""⟩
+        | none => if knownUnsupported doc then ⟨.pass, "model-unsupported" :: tags, ""⟩
+                  else ⟨.tie, "model-unsupported" :: tags, "the model declines this input document although it holds none of the constructs it is known not to follow"⟩
         | some recs =>
           let good := (recs.takeWhile (·.out.isOk)).filterMap fun r => match r.out with | .ok t => some (r.id, t) | .err => none
           let ofmt : OutFmt := match outfmt with | "newick" => .newick | "nexus" => .nexus | _ => .phyloxml
